@@ -764,6 +764,7 @@ protected:
       std::string headerSection = dataStr.substr(0, headerEnd);
       std::size_t contentLength = 0;
       bool isChunked = false;
+      bool haveContentLength = false;
 
       // Parse headers
       std::istringstream headerStream(headerSection);
@@ -794,7 +795,21 @@ protected:
           {
             try
             {
-              contentLength = std::stoull(value);
+              // RFC 9112 6.3: Content-Length is 1*DIGIT. std::stoull alone accepts
+              // "12abc", "+5", " 5" and "-1" (as 2^64-1) and would frame the body by
+              // guesswork; a repeated field with a different value is a conflict.
+              // Both are rejected like any other invalid length (catch below).
+              if (value.empty() || value.find_first_not_of("0123456789") != std::string::npos)
+              {
+                throw std::invalid_argument("Content-Length is not 1*DIGIT");
+              }
+              const std::size_t parsedLength = std::stoull(value);
+              if (haveContentLength && parsedLength != contentLength)
+              {
+                throw std::invalid_argument("conflicting Content-Length fields");
+              }
+              contentLength = parsedLength;
+              haveContentLength = true;
               if (contentLength > SessionInfo::MAX_BODY_SIZE)
               {
                 iora::core::Logger::error("HttpServer: Body size limit exceeded for session " +
@@ -827,6 +842,16 @@ protected:
       }
 
       std::size_t requestEndPos;
+
+      if (isChunked && haveContentLength)
+      {
+        // RFC 9112 6.3 rule 3: a message with both Transfer-Encoding and
+        // Content-Length is a request-smuggling vector - reject it.
+        iora::core::Logger::error("HttpServer: both Content-Length and Transfer-Encoding "
+                                  "for session " + std::to_string(sid) + " - closing connection");
+        closeSession(sid);
+        return;
+      }
 
       if (isChunked)
       {
